@@ -13,4 +13,14 @@ class C06(ProgProp):
         return cfg
 
 
+    def gen(self, rng, tier, k):
+        if rng.random() < 0.08:
+            from .. import gen as g
+            spec = g.motif_abandoned(rng)
+            nv = self.variants_quick if tier == "quick" else self.variants_thorough
+            return {"spec": spec, "variants": [{"conv": ["call", "value", "wrapped"][i % 3], "prio": g.gen_prio(rng, spec["kinds"])}
+                                               for i in range(nv)]}
+        return ProgProp.gen(self, rng, tier, k)
+
+
 PROP = C06()
